@@ -151,7 +151,10 @@ def generate(seed: int, tier: str = "quick") -> dict:
         if k < 0.16:  # mint more, on the frontier or a share of the current debt
             mint = {"frontier": {"eps": rp.choice(EPS + ["0.05", "0.3"])}} if rp.random() < 0.7 else \
                 {"f": f"sqshort:sq#{v['i']}", "x": rp.choice(["0.01", "0.1", "0.5", "2"])}
-            add(b, "sq.open_deposit_mint", "sq", {"vault": v, "deposit": rp.choice(["0", "0", "0.1", "1"]), "mint": mint})
+            a2 = {"vault": v, "deposit": rp.choice(["0", "0", "0.1", "1"]), "mint": mint}
+            if rp.random() < 0.2:  # an LP position handed in with the same call, on a vault that already exists
+                a2["pos"] = {"i": rp.randint(0, 3), "any": rp.random() < 0.3}
+            add(b, "sq.open_deposit_mint", "sq", a2)
         elif k < 0.24:
             add(b, "sq.deposit", "sq", {"vault": v, "amount": rp.choice(["0.01", "0.1", "0.5", "2", {"f": "wallet:WETH", "x": "1.5"}])})
         elif k < 0.46:  # collateral withdrawal: frontier, floor, share, all, more than all; with or without burning
